@@ -43,7 +43,7 @@ class World(object):
             self.foreign[name] = (rec, pub, blob)
         # PGPy's own recipients
         self.own = {}
-        for alg, name in (('rsa2048', 'rsa'), ('cv25519', 'cv25519'), ('ecdh256', 'ecdh256'), ('ecdh384', 'ecdh384')):
+        for alg, name in (('rsa2048', 'rsa'), ('cv25519', 'cv25519'), ('ecdh256', 'ecdh256'), ('ecdh384', 'ecdh384'), ('rsa2047', 'rsa2047'), ('rsa2052', 'rsa2052')):
             k = K.new_key('ed25519', name='Own %s' % name, email='own@x.org', subs=[(alg, {KeyFlags.EncryptCommunications, KeyFlags.EncryptStorage})])
             self.own[name] = k
         self.signer = K.new_key('ed25519', name='Msg Signer', email='ms@x.org')
@@ -287,11 +287,15 @@ def foreign_events(ctx, W):
     inner_msgs.append(('literal of indeterminate length', build.pkt(11, b'b\x00' + b'\x00\x00\x00\x03' + b'runs to the end', fmt='old', form=3), b'runs to the end'))
     inner_msgs.append(('ZIP-compressed literal of indeterminate length', build.pkt(8, b'\x01' + z, fmt='old', form=3), b'foreign literal content \x00\xff'))
     ciphers = [9, 7, 2, 3, 4, 8, 11, 12, 13]
-    rkinds = ['rsa', 'cv25519', 'ecdh256', 'ecdh384']
+    # RSA recipients whose modulus is not a whole number of octets long (2047, 2052 bits): the integer in the session-key packet is left-padded
+    # to the length of the modulus in OCTETS
+    rkinds = ['rsa', 'cv25519', 'ecdh256', 'ecdh384', 'rsa2047', 'rsa2052']
     n = 0
     for ci, alg in enumerate(ciphers):
         for ri, rk in enumerate(rkinds + ['pw', 'pw-simple', 'pw-salted', 'pw-nosession', 'multi']):
             if ctx.quick and (ci + ri) % 3 != 0 and alg != 9 and not (alg in (7, 8) and rk in ('cv25519', 'ecdh256')):
+                continue
+            if rk in ('rsa2047', 'rsa2052') and alg not in (9, 7, 3):
                 continue
             label, inner, content = inner_msgs[n % len(inner_msgs)]
             n += 1
@@ -323,10 +327,10 @@ def foreign_events(ctx, W):
                     if rk == 'pw' and n % 2 == 0:
                         # gpg --s2k-cipher-algo X --cipher-algo Y: the SKESK cipher (with another key size) wraps the key of the data cipher
                         kw['skesk_alg'] = {9: 7, 7: 9, 8: 3, 3: 9, 2: 7, 11: 13, 12: 7, 13: 2, 4: 9}.get(alg, 9 if alg != 9 else 7)
-            zl = (rk in ('cv25519', 'ecdh256', 'ecdh384') and alg in (9, 7)) or (rk == 'rsa' and alg in (9, 8, 3))
+            zl = (rk in ('cv25519', 'ecdh256', 'ecdh384') and alg in (9, 7)) or (rk == 'rsa' and alg in (9, 8, 3)) or rk in ('rsa2047', 'rsa2052')
             p40 = rk in ('cv25519', 'ecdh256', 'ecdh384') and alg in (8, 11, 7)
             blob, log = enc.encrypt_message(inner, alg, recipients=recips, passphrases=pws, fmt='old' if n % 5 == 0 else 'new', partial=(n % 4 == 0), zero_lead_shared=zl, pad40=p40, **kw)
-            e = {'k': 'foreign', 'label': 'cipher=%d to=%s inner=%s%s%s' % (alg, rk, label, (' (RSA integer with a leading zero octet)' if rk == 'rsa' else ' (shared secret with a leading zero octet)') if zl else '', ' (session block padded to 40 octets)' if p40 else ''), 'blob': octets(blob), 'log': log, 'recipients': rcs, 'inner': octets(inner),
+            e = {'k': 'foreign', 'label': 'cipher=%d to=%s inner=%s%s%s' % (alg, rk, label, (' (RSA integer with a leading zero octet)' if rk.startswith('rsa') else ' (shared secret with a leading zero octet)') if zl else '', ' (session block padded to 40 octets)' if p40 else ''), 'blob': octets(blob), 'log': log, 'recipients': rcs, 'inner': octets(inner),
                  'expected': _sha(content)}
             try:
                 m = pgpy.PGPMessage.from_blob(blob)
